@@ -73,8 +73,8 @@ func (g *docGen) element(depth int, parentTag string) {
 	if parentTag == "ol" || parentTag == "ul" {
 		tag = rng.Pick(g.r, "li", "li", "li", "li", "div")
 	}
-	if parentTag == "p" || parentTag == "span" {
-		tag = rng.Pick(g.r, "span", "b", "i")
+	if parentTag == "p" || parentTag == "span" || parentTag == "em" || parentTag == "q" {
+		tag = rng.Pick(g.r, "span", "span", "em") // phrasing content only (the HTML parser would restructure anything else)
 	}
 	g.n++
 	id := fmt.Sprintf("e%d", g.n)
@@ -151,6 +151,15 @@ func genDoc(r *rng.R) (string, *docGen) {
 	n := r.Range(1, 4)
 	for i := 0; i < n; i++ {
 		g.element(0, "body")
+	}
+	if r.P(1, 2) { // a plain <ol start=N>: its first item must show N
+		start := r.Range(-4, 40)
+		if start == 0 {
+			start = 7
+		}
+		g.n += 3
+		fmt.Fprintf(&g.body, `<ol id="e%d" class="o" start="%d"><li id="e%d" class="o">x</li><li id="e%d" class="o">y</li></ol>`, g.n-2, start, g.n-1, g.n)
+		g.starts[fmt.Sprintf("e%d", g.n-1)] = start
 	}
 	src := "<html><head><style>\n.o::before, .o::after { content: " + obsContent + " }\n" + g.css.String() + "</style></head><body>" + g.body.String() + "</body></html>"
 	return src, g
@@ -290,7 +299,7 @@ func runScopes(m *mp.Model, r *rng.R, n int, out *res.Result) error {
 		out.Count("doc|"+src, g.decls >= 2)
 		out.Hit(fmt.Sprintf("doc:elements:%d", (g.n+4)/5*5))
 		if pan != "" {
-			out.Add(res.Finding{Kind: "crash", Op: "crash:boxes:BuildFormattingStructure", Input: src, Impl: "panic: " + pan, Key: panicClass(pan), Seed: seed})
+			add(out, res.Finding{Kind: "crash", Op: "crash:boxes:BuildFormattingStructure", Input: src, Impl: "panic: " + pan, Key: panicClass(pan), Seed: seed})
 			continue
 		}
 		collectText(root, texts)
@@ -298,32 +307,41 @@ func runScopes(m *mp.Model, r *rng.R, n int, out *res.Result) error {
 		if err != nil {
 			return err
 		}
-		if ans.K != sx.List || len(ans.Xs) != 3 {
+		if ans.K != sx.List || len(ans.Xs) != 4 {
 			return fmt.Errorf("scope: model answered %s", ans.String())
 		}
-		for which, x := range ans.Xs[1:] {
+		setFirst, _ := parseObs(ans.Xs[3]) // CSS Lists 3 with set applied before increment
+		for which, x := range ans.Xs[1:3] {
 			os, ok := parseObs(x)
 			kind, op := "corr", "corr:scope:counters-text"
 			if which == 1 {
 				kind, op = "judge", "judge:scope:css-lists"
 			}
 			if !ok || len(os) != len(exp) {
-				out.Add(res.Finding{Kind: kind, Op: op, Input: src, Model: x.String(), Reason: fmt.Sprintf("%d observation points in the document, %d from the model", len(exp), len(os)), Key: "shape", Seed: seed})
+				add(out, res.Finding{Kind: kind, Op: op, Input: src, Model: x.String(), Reason: fmt.Sprintf("%d observation points in the document, %d from the model", len(exp), len(os)), Key: "shape", Seed: seed})
 				continue
 			}
 			for j, e := range exp {
 				if os[j].kind != e.kind {
-					out.Add(res.Finding{Kind: kind, Op: op, Input: src, Reason: "observation order", Key: "shape", Seed: seed})
+					add(out, res.Finding{Kind: kind, Op: op, Input: src, Reason: "observation order", Key: "shape", Seed: seed})
 					break
 				}
 				got, has := texts[[2]string{e.id, e.kind}]
 				want := expectedText(cs, e, os[j])
 				if !has || got != want {
 					key := "values"
-					if which == 1 {
-						key = classifyScope(e, sf, h.Root)
+					if which == 1 && len(setFirst) == len(exp) {
+						all := true
+						for k, e2 := range exp {
+							if texts[[2]string{e2.id, e2.kind}] != expectedText(cs, e2, setFirst[k]) {
+								all = false
+							}
+						}
+						if all {
+							key = "set-then-increment"
+						}
 					}
-					out.Add(res.Finding{Kind: kind, Op: op, Input: src, Impl: fmt.Sprintf("#%s::%s = %q", e.id, e.kind, got),
+					add(out, res.Finding{Kind: kind, Op: op, Input: src, Impl: fmt.Sprintf("#%s::%s = %q", e.id, e.kind, got),
 						Model: fmt.Sprintf("%q", want), Reason: "counter text at #" + e.id + "::" + e.kind, Key: key, Seed: seed})
 					break
 				}
@@ -336,7 +354,7 @@ func runScopes(m *mp.Model, r *rng.R, n int, out *res.Result) error {
 				if e.id == id && e.kind == "marker" {
 					want := cs.RenderMarker(e.style.GetListStyleType(), n)
 					if got := texts[[2]string{id, "marker"}]; got != want {
-						out.Add(res.Finding{Kind: "judge", Op: "judge:scope:ol-start", Input: src, Impl: got, Model: want, Reason: fmt.Sprintf("first item of <ol start=%d> is #%s", n, id), Key: "ol-start", Seed: seed})
+						add(out, res.Finding{Kind: "judge", Op: "judge:scope:ol-start", Input: src, Impl: got, Model: want, Reason: fmt.Sprintf("first item of <ol start=%d> is #%s", n, id), Key: "ol-start", Seed: seed})
 					}
 					out.Hit("scope:ol-start")
 				}
@@ -349,41 +367,3 @@ func runScopes(m *mp.Model, r *rng.R, n int, out *res.Result) error {
 	return nil
 }
 
-// classifyScope: a deviation from CSS Lists 3 is "set-then-increment" when some box-generating style
-// of the document both sets and increments one counter (the standard increments first, then sets).
-func classifyScope(e expect, sf *tree.StyleFor, root *utils.HTMLNode) string {
-	found := false
-	var visit func(el *utils.HTMLNode)
-	check := func(st pr.ElementStyle) {
-		if st == nil {
-			return
-		}
-		incs := st.GetCounterIncrement().Values
-		if st.GetCounterIncrement().String == "auto" && st.GetDisplay().Has("list-item") {
-			incs = pr.IntStrings{{String: "list-item", Int: 1}}
-		}
-		for _, s := range st.GetCounterSet().Values {
-			for _, c := range incs {
-				if s.String == c.String {
-					found = true
-				}
-			}
-		}
-	}
-	visit = func(el *utils.HTMLNode) {
-		if el.Type != html.ElementNode {
-			return
-		}
-		check(sf.Get(el, ""))
-		check(sf.Get(el, "before"))
-		check(sf.Get(el, "after"))
-		for _, ch := range el.NodeChildren(false) {
-			visit(ch)
-		}
-	}
-	visit(root)
-	if found {
-		return "set-then-increment"
-	}
-	return "values"
-}
